@@ -57,6 +57,11 @@ def run(tier, seed, res, lean):
         res.violations.append(Violation('c08-columns-after-failure', b['msg'][:300], {'suite': 'S-COL', **b}))
     for b in c08_bad[:4]:
         res.violations.append(Violation('c08-memo', b['failures'][0]['msg'][:300], {'suite': 'S-CACHE', **b}))
+    # every bracketing x cache kind x way a field reaches the cache layer (produced, consumed, inherited only)
+    br_calls, br_bad = suite_cache.run_bracketings(seed)
+    for b in br_bad[:3]:
+        res.violations.append(Violation('c08-memo-bracketing', b['msg'][:300], {'suite': 'S-CACHE/bracketings', **b}))
+    res.coverage['bracketing_calls'] = br_calls
     # the id mappings of Join / GroupBy / Split are computed once per pipeline object: reading ids again, and a call of a field for one
     # entry, do not compute them again (S-REL, memo part)
     from .. import suite_rel
